@@ -91,6 +91,7 @@ def bullet_scan(run: Run, model: PyModel, ts, rid: str = "C12.R6") -> None:
 
 
 def check(run: Run) -> None:
+    run.rule("C12.R9", "a moved note's text compiles back to the same note: the inherited tags / properties `note move` writes out land directly after the note's own ZID, also behind a modify date (C10.R5 adopted)")
     model = PyModel(run.repo)
     run.rule("C12.R1", "kind characters round-trip: to_string emits NoteType.value and the compiler maps that character back to the same member")
     run.rule("C12.R2", "priority is emitted for every todo kind that is not done/cancelled")
@@ -239,6 +240,13 @@ def check(run: Run) -> None:
         want_raw = "\n".join([f"{ch}{' P1' if shows else ''} todo {i}\n  second line of {i}" for i, (_, ch, shows) in enumerate(kinds4)] + ["- plain"])
         run.check("C12.R4", "selected todos are emitted in the text form of Note.to_string (kind character, priority of live kinds, all lines)", raw == want_raw, "execute_with_session", f"rendered {raw!r}"[:200],
                   f"selecting five two-line P1 todos (o x ~ < >) and a note renders {raw!r}, expected {want_raw!r}: the query path does not emit the notes' own text form", file=P.fe.file, node=P.fe.node)
+    # ---- R9: the moved note's text keeps its identity: inherited metadata is spliced in right after the note's own ZID (C10.R5's evaluation of the splice, adopted)
+    from ..core import Run as _Run
+    from . import c10 as _c10
+
+    sub10 = _Run("C10", run.tier, run.repo)
+    _c10._tables(sub10, model)
+    run.floor("adopted move-splice obligations", run.adopt(sub10, ("C10.R5",), "C12.R9"), 3)
     # ---- R5 / R7
     refresh_scenarios(run, model)
     # ---- R8
